@@ -170,9 +170,66 @@ def r5_derived_lifecycle(ctx):
     derived_inherits(ctx, 'C03.R5', 'lifecycle', '::Lifecycle', 'lifecycle')
 
 
+# what decides, for a node of the call graph, between "bind its value to a `let` variable" and "inline the expression into its consumer"
+REVIEWED_INLINE_PREDICATES = {
+    'analyses::call_graph::codegen::BasicBlockVisitor::next',            # traversal order
+    'analyses::components::db::ComponentDb::hydrated_component',         # kind of node / computation
+    'analyses::components::hydrated::HydratedComponent::computation',
+    'analyses::call_graph::codegen::get_node_happen_befores',            # `?` on the code generation of the node itself
+    'analyses::call_graph::codegen::get_node_type_inputs',
+    'codegen_utils::codegen_call_block',
+    'analyses::call_graph::codegen::find_match_branching_ancestor',      # "this is the last node of the traversal"
+    'computation::Computation::output_type',                             # "the node has no output"
+    'core::cmp::PartialEq::eq', 'core::option::Option::is_none',
+}
+
+
+def r6_bound_once(ctx):
+    ctx.rule('C03.R6', 'P1 + reviewed table: in _codegen_callable_closure_body a computed value is bound to a `let` variable unless it is the last node '
+             'of the traversal or has no output; the branches that decide between binding and inlining are fed only by the reviewed predicates. '
+             'An inlined fragment is pasted at every consumer: a value that is moved into one component and borrowed by another would be '
+             'constructed twice (request-scoped and singleton values are built once).')
+    fn = A + 'call_graph::codegen::_codegen_callable_closure_body'
+    b = ctx.need('C03.R6', '_codegen_callable_closure_body', ctx.fb.body('pavexc', fn))
+    if b is None:
+        return
+    defs = Defs(b)
+    gen = [bb for bb, t in b.calls() if (callee(t) or '').endswith('VariableNameGenerator::generate')]
+    heads = [bb for bb, t in b.calls() if (callee(t) or '').split('::')[-1] == 'next' and bb in b.reachable(b.succ(bb))]
+    if not ctx.need('C03.R6', 'variable binding site (VariableNameGenerator::generate)', gen):
+        return
+    V = min(gen)
+    found = {}
+    n = 0
+    for W in sorted(b.live_blocks()):
+        t = b.term(W)
+        if not t or t['k'] != 'switch' or W == V or V not in b.reachable([W], avoid=heads):
+            continue
+        succs = list(dict.fromkeys([x[1] for x in t['ts']] + [t['else']]))
+        can = [x == V or V in b.reachable([x], avoid=heads) for x in succs]
+        if not (any(can) and not all(can)):
+            continue
+        n += 1
+        src = t.get('src')
+        pl = op_place(t['d']) if 'd' in t else None
+        l = src['l'] if src else (pl['l'] if pl else None)
+        if l is None:
+            continue
+        sl, _ = backward_slice(b, l, defs)
+        for c, _, _ in slice_calls(sl):
+            c = strip_generics(c or '')
+            if c.startswith('pavexc::') or c.startswith('petgraph::') or c.split('::')[-1] in ('eq', 'ne', 'is_none', 'is_some', 'any', 'all', 'count', 'len', 'is_empty', 'contains'):
+                found.setdefault(c.replace('pavexc::compiler::', ''), b.loc(W))
+    new = sorted(set(found) - REVIEWED_INLINE_PREDICATES)
+    ctx.ob('C03.R6', 'bind-or-inline-decision', not new, found[new[0]] if new else b.loc(V),
+           '%d branch(es) decide whether a node is bound to a variable; predicates outside the reviewed table: %s' % (n, new or 'none'))
+    ctx.floor('C03.R6', 'branches deciding between binding and inlining', n, 4)
+
+
 def check(ctx):
     r1_tables(ctx)
     r2_dedup(ctx)
     r3_invariants(ctx)
     r4_prebuilt_threaded(ctx)
     r5_derived_lifecycle(ctx)
+    r6_bound_once(ctx)
